@@ -3,7 +3,7 @@
 // Contracts for the deductive verifier in /verif (comment-only: adds no declarations).
 package certgen
 
-//@ use net asn1 errors time ssh
+//@ use net asn1 errors time ssh crypto
 
 // ---- C10 / C11: the RFC 3779 address-block codec ---------------------------------------------------
 //@ func decodeIPV4AddressChoice
@@ -18,3 +18,11 @@ package certgen
 //@   ensures err == nil && duration >= 0 ==> ule(cert.ValidBefore - cert.ValidAfter, uint64(duration / time.Second) + 1)  #C03.ssh-window @C03 %90
 //@   ensures err == nil && duration < 0 ==> cert.ValidBefore == cert.ValidAfter                          #C03.ssh-negative @C03
 //@   ensures err == nil ==> cert.ValidAfter == uint64(nowNanos() / 1000000000)                           #C03.ssh-starts-now @C03
+
+// ---- C10: only strong public keys are certified ---------------------------------------------------------
+//@ func ValidatePublicKeyStrength
+//@   requires parsedKeyShape(pub)
+//@   ensures ret1 == nil                    #C10.no-error @C10
+//@   ensures ret0 ==> strongKey(pub)        #C10.strong @C10
+//@   ensures strongKey(pub) ==> ret0        #C10.served @C10
+//@   modifies nothing
